@@ -255,3 +255,15 @@ Print Assumptions C07_transfer_instant.
 Print Assumptions C07_deadline_after_read.
 Print Assumptions C07_cooperative_split.
 Print Assumptions C07_survive_routing.
+
+(* ---- M3 (Conn/Sem3.v): the same for EVERY behaviour of the transport (free room following any schedule: writes accepted
+   in part, refused, never accepted again), every latency of localize(), every cancellation of a pending write or of a
+   pending missed-keep-alive verdict by the race.  Proofs in Conn/Sem3Proofs.v. ---- *)
+From Passage Require Import Lib.Bytes Codec.Desc Gen.PacketsGen Conn.Types Conn.Prog Conn.Sem1 Conn.Sem2 Conn.Sem3 Conn.Monitor Conn.Order Conn.Checks Conn.Switch Conn.Sem3Proofs.
+
+Theorem C07_verdict_stands : forall o cfg e encf loclat cap sch s pre loc post,
+  untime (trace_of (run3 o cfg e encf loclat cap sch s)) = pre ++ TCall (CLocalize loc key_timeout) :: post ->
+  timeout_tail post = true.
+Proof. exact run3_verdict_stands. Qed.
+
+Print Assumptions C07_verdict_stands.
